@@ -9,7 +9,7 @@ from jax import Array
 from jaxtyping import Inexact, PyTree
 
 from .core import AbstractLinearOperator, AdditionOperator, IdentityOperator
-from .rules import AbstractBinaryRule
+from .rules import AbstractBinaryRule, NoReduction
 
 
 class AbstractBlockOperator(AbstractLinearOperator, ABC):
@@ -227,6 +227,12 @@ class AbstractBlockDiagonalRule(AbstractBinaryRule):
     ) -> list[AbstractLinearOperator]:
         assert isinstance(left, AbstractBlockOperator)  # mypy assert
         assert isinstance(right, AbstractBlockOperator)  # mypy assert
+        # the blocks can only be multiplied pairwise if both containers are nested in the same way
+        is_leaf = lambda x: isinstance(x, AbstractLinearOperator)  # noqa: E731
+        if jax.tree.structure(left.blocks, is_leaf=is_leaf) != jax.tree.structure(
+            right.blocks, is_leaf=is_leaf
+        ):
+            raise NoReduction
         return [self.reduced_class(left._tree_map(lambda l, r: l @ r, right.blocks)).reduce()]
 
 
